@@ -718,6 +718,8 @@ def exec_step(w, rec, i):
         else:
             guarded(lambda: ref.envelope(s.obj, s.kind), [s])
 
+    if rec.get("repeat") and touched and "coh" in w.invariants:
+        w.stats["chk.I_repeat"] += guarded(lambda: _repeat_check(w, rec, touched[0], where), touched)
     for sid, sn in snaps.items():
         w.stats["chk.I_imm"] += guarded(lambda: ref.I_imm(w.slots[sid].obj, sn, where=where + (f" operand {sid}" if sid in ops else f" bystander {sid}")), [w.slots[sid]])
     for sid in ops:
@@ -734,6 +736,37 @@ def exec_step(w, rec, i):
                   tuple(sorted(before.items())), tuple(describe(s) for s in touched),
                   tuple((k[1], util.sha_bytes(w.outputs[k])) for k in outs)))
     return touched
+
+
+def _repeat_check(w, rec, res_slot, where):
+    """A re-issued operation (same operand objects, possibly mutated in place or queried since the first call)
+    must give what the same operation gives on operands rebuilt from their defining parameters: nothing
+    memoised on an operand may outlive an in-place update (local evict twin)."""
+    from . import perturb
+
+    w2 = World(salt=w.salt, invariants=())
+    for sid in operands(rec):
+        s0 = w.slots[sid]
+        fresh = perturb.canonical_rebuild(s0.obj)
+        s2 = Slot(sid, fresh if fresh is not None else s0.obj, s0.kind, -1, "rebuilt")
+        s2.u = s0.u
+        w2.slots[sid] = s2
+    rec2 = {k: v for k, v in rec.items() if k != "repeat"}
+    rec2["_i"] = rec["_i"]
+    out2 = RUN[rec["op"]](w2, rec2)
+    if not out2:
+        return 0
+    a, b = ref.attrs_of(res_slot.obj), ref.attrs_of(out2[0].obj)
+    n = 0
+    for name in a:
+        if a[name] is None or b.get(name) is None:
+            continue
+        if name in ("ln_det_Sigma", "ln_det_Lambda", "lnZ", "ln_beta"):
+            ref.cmp_log("I_repeat." + name, a[name], b[name], where=where)
+        else:
+            ref.cmp_lin("I_repeat." + name, a[name], b[name], floor=1e-3 if name in ("mu", "nu", "b") else 1e-6, where=where)
+        n += 1
+    return n
 
 
 def _prod_pre(w, rec, i):
